@@ -33,6 +33,14 @@ set_option linter.unusedVariables false
 @[simp] theorem g_hasWaker (w : Word) : TaskState.hasWaker w = w.hasWaker := rfl
 @[simp] theorem g_hasResult (w : Word) : TaskState.hasResult w = w.hasResult := rfl
 @[simp] theorem g_count (w : Word) : TaskState.count w = w.count := rfl
+@[simp] theorem g_startScheduling (w : Word) :
+    TaskState.startScheduling w = { w with scheduled := true, scheduling := true } := rfl
+@[simp] theorem g_finishScheduling (w : Word) : TaskState.finishScheduling w = { w with scheduling := false } := rfl
+@[simp] theorem g_isScheduled (w : Word) : TaskState.isScheduled w = w.scheduled := rfl
+@[simp] theorem g_startSettingWaker (w : Word) :
+    TaskState.startSettingWaker w = { w with notSettingWaker := false } := rfl
+@[simp] theorem g_finishSettingWakerTrue (w : Word) :
+    TaskState.finishSettingWakerTrue w = { w with notSettingWaker := true, hasWaker := true } := rfl
 
 /-! ## Per-task invariant -/
 
@@ -121,6 +129,11 @@ theorem runTask_clone (t : TaskSt) (hc : t.word.notCancelled = true) (hb : t.wor
     runTask t = (clonedTask t, .pending, none) := by
   simp [runTask, hc, hb, hs, polledTask, clonedTask]
 
+theorem runTask_remote (t : TaskSt) (hc : t.word.notCancelled = true) (hb : t.word.completed = false)
+    (r : List Outcome) (hs : t.script = .remoteWake :: r) :
+    runTask t = (polledTask t, .remoteWoke, none) := by
+  simp [runTask, hc, hb, hs, polledTask]
+
 theorem runTask_ready (t : TaskSt) (hc : t.word.notCancelled = true) (hb : t.word.completed = false)
     (o : Outcome) (r : List Outcome) (hs : t.script = o :: r) (ho : o = .ready ∨ o = .panic) :
     runTask t = (finishedTask t o, .finished,
@@ -168,6 +181,35 @@ theorem spawnedTask_inv (sc : List Outcome) :
 theorem pollTask_inv (q : Bool) (t : TaskSt) (w : Nat) (h : TInv q t) (hh : t.handle = true) :
     TInv q (pollTask t w).1 := by
   cases q <;> cases hn : t.word.notCancelled <;> task_tac [pollTask]
+
+theorem remotePollTask_inv (q : Bool) (t : TaskSt) (w : Nat) (h : TInv q t) (hh : t.handle = true) :
+    TInv q (remotePollTask t w).1 := by
+  cases q <;> cases hn : t.word.notCancelled <;> task_tac [remotePollTask]
+
+/-- the SCHEDULED / SCHEDULING bits play no role in the per-task invariant -/
+theorem sched_bits_inv (q : Bool) (t : TaskSt) (a b : Bool) (h : TInv q t) :
+    TInv q { t with word := { t.word with scheduled := a, scheduling := b } } := by
+  obtain ⟨h1, h2, h3, h4a, h4b, h4c, h4d, h5a, h5b, h5c, h5d, h5e, h5f, h6, h7, h8, h9, h10, h11, h12, h13⟩ := h
+  exact ⟨h1, h2, h3, h4a, h4b, h4c, h4d, h5a, h5b, h5c, h5d, h5e, h5f, h6, h7, h8, h9, h10, h11, h12, h13⟩
+
+theorem remoteSchedTask_eq (t : TaskSt) :
+    ∃ a b, (remoteSchedTask t).1 = { t with word := { t.word with scheduled := a, scheduling := b } } := by
+  unfold remoteSchedTask
+  simp only
+  split
+  · exact ⟨true, false, by simp⟩
+  · split
+    · exact ⟨true, false, by simp⟩
+    · exact ⟨true, true, by simp⟩
+
+theorem remoteSchedTask_inv (q : Bool) (t : TaskSt) (h : TInv q t) : TInv q (remoteSchedTask t).1 := by
+  obtain ⟨a, b, he⟩ := remoteSchedTask_eq t
+  rw [he]; exact sched_bits_inv q t a b h
+
+theorem finishSched_inv (q : Bool) (t : TaskSt) (h : TInv q t) :
+    TInv q { t with word := TaskState.finishScheduling t.word } := by
+  have := sched_bits_inv q t t.word.scheduled false h
+  simpa using this
 
 theorem detachedTask_inv (q : Bool) (t : TaskSt) (h : TInv q t) (hh : t.handle = true) :
     TInv q (dropRef { t with handle := false }) := by
